@@ -23,7 +23,7 @@ fn expect_axis(kind: Kind, c: f32, size: u32) -> Option<Option<u32>> {
     }
 }
 
-struct TexCase<'a> { w: u32, h: u32, ox: u32, oy: u32, borrowed: bool, parent: &'a Buf2<(u32, u32)> }
+struct TexCase<'a> { w: u32, h: u32, ox: u32, oy: u32, borrowed: bool, parent: &'a Buf2<(u32, u32)>, owned: Option<&'a Texture<Buf2<(u32, u32)>>> }
 
 fn sample_one(tc: &TexCase, kind: Kind, rel: bool, u: f32, v: f32, r: &mut Report) {
     let (w, h) = (tc.w, tc.h);
@@ -49,16 +49,18 @@ fn sample_one(tc: &TexCase, kind: Kind, rel: bool, u: f32, v: f32, r: &mut Repor
         }
     };
     macro_rules! go { ($tex:expr) => {{
-        let tex = $tex;
+        let tex = &$tex;
         let got = match kind {
-            Kind::Repeat => { let s = SamplerRepeatPot::new(&tex); caught(|| if rel { s.sample(&tex, uv(u, v)) } else { s.sample_abs(&tex, uv(u, v)) }) }
-            Kind::Clamp => caught(|| if rel { SamplerClamp.sample(&tex, uv(u, v)) } else { SamplerClamp.sample_abs(&tex, uv(u, v)) }),
-            Kind::Once => caught(|| if rel { SamplerOnce.sample(&tex, uv(u, v)) } else { SamplerOnce.sample_abs(&tex, uv(u, v)) }),
+            Kind::Repeat => { let s = SamplerRepeatPot::new(tex); caught(|| if rel { s.sample(tex, uv(u, v)) } else { s.sample_abs(tex, uv(u, v)) }) }
+            Kind::Clamp => caught(|| if rel { SamplerClamp.sample(tex, uv(u, v)) } else { SamplerClamp.sample_abs(tex, uv(u, v)) }),
+            Kind::Once => caught(|| if rel { SamplerOnce.sample(tex, uv(u, v)) } else { SamplerOnce.sample_abs(tex, uv(u, v)) }),
         };
         run(r, got);
     }}; }
     if tc.borrowed {
         go!(Texture::from(tc.parent.slice((tc.ox..tc.ox + w, tc.oy..tc.oy + h))));
+    } else if let Some(t) = tc.owned {
+        go!(*t);
     } else {
         go!(Texture::from(Buf2::new_with((w, h), |x, y| (x + tc.ox, y + tc.oy))));
     }
@@ -81,7 +83,7 @@ fn lattice(maxw: u32) -> Vec<f32> {
 fn replay_case(case: &J, r: &mut Report, parent: &Buf2<(u32, u32)>) {
     let g = |k: &str| case.get(k).and_then(|j| j.as_u64()).unwrap_or(0) as u32;
     let kind = match case.get("kind").and_then(|j| j.as_str()).unwrap_or("") { "Repeat" => Kind::Repeat, "Clamp" => Kind::Clamp, _ => Kind::Once };
-    let tc = TexCase { w: g("w"), h: g("h"), ox: g("ox"), oy: g("oy"), borrowed: case.get("borrowed") == Some(&J::Bool(true)), parent };
+    let tc = TexCase { w: g("w"), h: g("h"), ox: g("ox"), oy: g("oy"), borrowed: case.get("borrowed") == Some(&J::Bool(true)), parent, owned: None };
     sample_one(&tc, kind, case.get("rel") == Some(&J::Bool(true)), parse_fbits(case.get("u").unwrap()).unwrap(), parse_fbits(case.get("v").unwrap()).unwrap(), r);
 }
 
@@ -94,7 +96,9 @@ fn main() {
     let mut rep = Report::new();
     let pot: Vec<u32> = vec![1, 2, 4, 8, 16];
     let any: Vec<u32> = vec![1, 2, 3, 5, 8];
-    let lat = lattice(16);
+    let mut lat = lattice(16);
+    for big in [255.0f32, 256.0, 257.0, 299.0, 300.0, 301.0, 511.0, 512.0, 513.0, 1023.0, 1024.0, 1025.0, 65535.0, 65536.0] { for d in [0.0f32, 0.5, -1.0] { lat.push(big + d); lat.push(-(big + d)); } }
+    lat.sort_by(|a, b| a.total_cmp(b)); lat.dedup_by(|a, b| a.to_bits() == b.to_bits());
     let n = lat.len() as u64;
     rep.set("axis_lattice_size", n);
     // texture cases: (kind, w, h, offset, borrowed)
@@ -108,14 +112,18 @@ fn main() {
             for (ox, oy) in offs { cases.push((kind, w, h, ox.min(16 - w), oy.min(16 - h), true)); }
         }}
     }
+    // scale sentinels: sizes beyond 255 (repeat: powers of two; clamp/once: arbitrary); owned only (parent is 16x16)
+    for (kind, w, h) in [(Kind::Repeat, 256u32, 2u32), (Kind::Repeat, 2, 1024), (Kind::Repeat, 512, 512), (Kind::Clamp, 300, 2), (Kind::Clamp, 3, 257), (Kind::Once, 300, 3)] { cases.push((kind, w, h, 0, 0, false)); }
     cases.dedup();
     rep.set("texture_cases", cases.len() as u64);
     let nc = cases.len() as u64;
+    // owned textures are built once per case
+    let owned: Vec<Option<Texture<Buf2<(u32, u32)>>>> = cases.iter().map(|&(_, w, h, ox, oy, b)| if b { None } else { Some(Texture::from(Buf2::new_with((w, h), |x, y| (x + ox, y + oy)))) }).collect();
     // full u x v lattice product per case (absolute), and a thinner product for relative entry points
     rep.merge(par_range(&cfg, nc * n * n, |i, r| {
         let (kind, w, h, ox, oy, borrowed) = cases[(i / (n * n)) as usize];
         let (u, v) = (lat[(i % n) as usize], lat[(i / n % n) as usize]);
-        let tc = TexCase { w, h, ox, oy, borrowed, parent: &parent };
+        let tc = TexCase { w, h, ox, oy, borrowed, parent: &parent, owned: owned[(i / (n * n)) as usize].as_ref() };
         sample_one(&tc, kind, false, u, v, r);
         if (i % n + i / n % n) % 3 == 0 || (u.abs() <= 2.0 && v.abs() <= 2.0) { sample_one(&tc, kind, true, u, v, r); }
     }));
